@@ -18,7 +18,7 @@ COMMON_ASSUMPTIONS = [
     "usize counters are modelled as unbounded N; the 2^64 overflow branches of inc_strong/inc_weak are not modelled",
 ]
 
-CORE = ["corpus", "bfs_c3", "bfs_c2", "shp4", "shp3", "rand_cw", "rand_cwf"]
+CORE = ["corpus", "bfs_c3", "bfs_c2", "shp4", "shp3", "shp5", "rand_cw", "rand_cwf"]
 API = ["bfs_a", "rand_cwa"]     # the handle-consuming API inside adoption graphs (make_mut drops a handle too)
 DISC_ONLY = {"C01", "C02", "C03", "C05", "C06"}
 
